@@ -325,6 +325,10 @@ func runC02(c *Ctx) {
 	// ---------------- R3: digest in the core ----------------
 	expDigest := func(v ssa.Value) bool { return flow.IsFieldLoad(v, verifyPkg, "Options", "ExpectedUefiSha384") }
 	goldenDigest := func(v ssa.Value) bool { return flow.IsFieldLoad(v, epbPkg, "VMGoldenMeasurement", "Digest") }
+	// the comparison may sit in a helper that receives the expected digest as a parameter
+	sl3 := flow.NewSlicer(c.P)
+	sl3.LiftParams = 3
+	expDigestD := func(v ssa.Value) bool { return expDigest(v) || sl3.Derives(v, expDigest) }
 	r3cores, r3regions := c.verifyCores()
 	for _, core := range r3cores {
 		name := load.FuncName(core)
@@ -334,7 +338,7 @@ func runC02(c *Ctx) {
 		r := &esp.Rule{Name: "C02.R3"}
 		r.Relevant = func(f *ssa.Function) bool { return region[f] && f != core }
 		r.Flag = func(v ssa.Value) (int, bool) {
-			if isLenOf(v, expDigest) {
+			if isLenOf(v, expDigestD) {
 				return 0, true
 			}
 			return 0, false
@@ -342,7 +346,7 @@ func runC02(c *Ctx) {
 		r.Match = func(in ssa.Instruction) []esp.Ev {
 			if call, ok := isBytesEqual(in); ok {
 				a0, a1 := call.Call.Args[0], call.Call.Args[1]
-				if (sl.Derives(a0, expDigest) && sl.Derives(a1, goldenDigest)) || (sl.Derives(a1, expDigest) && sl.Derives(a0, goldenDigest)) {
+				if (expDigestD(a0) && sl3.Derives(a1, goldenDigest)) || (expDigestD(a1) && sl3.Derives(a0, goldenDigest)) {
 					nEq++
 					return []esp.Ev{{ID: 0, Name: "bytes.Equal(expected digest, endorsed digest)", ErrIdx: -1, BoolIdx: 0}}
 				}
